@@ -33,6 +33,9 @@ VNormalize(x) ==
     \o FailIf(x.mask = 0 /\ x.out.own # x.val.own, "C08", "zero mask changed ownership")
     \o FailIf(~WfOf(x.out) \/ ~Stable(o), "C07", "normalized URI does not read back as held / is not well formed")
     \o FailIf(HasScheme(o) # HasScheme(v) \/ HasHost(o) # HasHost(v), "C09", "normalization added or removed a scheme or an authority")
+    \o (LET t == Recompose(o) IN
+        FailIf(Accepts(t) /\ (HasScheme(Components(t)) # HasScheme(v) \/ HasHost(Components(t)) # HasHost(v)), "C09",
+               "the normalized URI, written out and read again, has gained or lost a scheme or an authority"))
     \o FailIf(IsRelPathRef(v) /\ v.segs # <<>> /\ ~(IsRelPathRef(o) /\ PathOf(o) # <<>> /\ PathOf(o)[1] # cSL), "C09", "relative path made empty or absolute")
     \o FailIf(~HasScheme(v) /\ ~HasHost(v) /\ v.abs /\ ~o.abs, "C09", "absolute path made relative")
 
